@@ -19,6 +19,9 @@ from tornado.iostream import StreamClosedError
 from tornado.tcpclient import _Connector
 
 
+HE = 2   # happy-eyeballs fallback delay in virtual ticks (production: 0.3 s); ct in {None,1,2,3} gives <,=,>
+
+
 class FakeConnStream:
     """Environment stub for an IOStream that is connecting.  Contract copied from IOStream:
     close() is idempotent; closing while the connect is pending fails the connect future with
@@ -179,22 +182,27 @@ class _Rig:
                 assert a is b or a.af != b.af, "two attempts of one family in flight"
 
 
-def pre_conn(addrs: List[Tuple[bool, bool]], he: int, ct: int, steps: List[Tuple[int, int, bool]]) -> bool:
+def pre_conn(addrs: List[Tuple[bool, bool]], ct: int, steps: List[Tuple[int, int]]) -> bool:
     if not (1 <= len(addrs) <= P.N and len(steps) <= P.S):
         return False
-    if not (1 <= he <= 2 and 0 <= ct <= 3):
+    if not (0 <= ct <= 3):
         return False
-    for k, a, d in steps:
-        if not (0 <= k <= 2 and 0 <= a <= 1):
+    if P.SYM and addrs[0][0]:
+        # quick tier: family labels are interchangeable (mirror image lists); first address is AF_INET6
+        return False
+    for k, a in steps:
+        if not (0 <= k <= 3 and 0 <= a <= 1):
             return False
-    return in_shard((len(addrs) - 1) + P.N * ct)
+    f0 = 1 if addrs[0][1] else 0
+    k0 = steps[0][0] if len(steps) > 0 else 0
+    return in_shard((len(addrs) - 1) + P.N * (f0 + 2 * k0))
 
 
 @harness(
     pre=pre_conn,
-    quick=dict(N=3, S=4, timeout=150, reach_timeout=60),
-    thorough=dict(N=4, S=6, timeout=1400, reach_timeout=120),
-    nshards=dict(quick=12, thorough=16),
+    quick=dict(N=3, S=3, SYM=1, timeout=300, reach_timeout=60),
+    thorough=dict(N=4, S=4, SYM=0, timeout=1500, reach_timeout=120),
+    nshards=dict(quick=24, thorough=32),
     reach=["sync_fail", "timeout_error", "all_failed_error", "late_success_closed", "secondary_started"],
     units=["tcpclient._Connector.__init__", "tcpclient._Connector.split", "tcpclient._Connector.start",
            "tcpclient._Connector.try_connect", "tcpclient._Connector.on_connect_done",
@@ -207,44 +215,62 @@ def pre_conn(addrs: List[Tuple[bool, bool]], he: int, ct: int, steps: List[Tuple
            "connect() callable = environment: FakeConnStream (close idempotent; close while connecting fails "
            "the connect future with StreamClosedError, as BaseIOStream does); a failed connect closes its own "
            "stream (as IOStream._handle_connect/close does)",
-           "time unit: the happy-eyeballs fallback delay is passed as start(timeout=he) with he in 1..2 virtual "
-           "ticks (production default 0.3 s) and connect_timeout as an absolute deadline t0+ct, ct in 1..3 or "
-           "None; clock advances by 1 or 2 ticks per step",
-           "step = (kind: succeed / fail / advance clock, which in-flight attempt, defer: do not run the loop "
-           "before the next step -> several completions land in one loop iteration, producing late arrivals)",
+           "time unit: the happy-eyeballs fallback delay is passed as start(timeout=2) virtual ticks (production "
+           "default 0.3 s) and connect_timeout as an absolute deadline t0+ct, symbolic ct in 1..3 or None (all "
+           "orders connect_timeout <, ==, > fallback delay); a clock step jumps to the next pending timer "
+           "deadline (time is observable by the connector only through its timers)",
+           "step = (kind: succeed one / fail one / fire next timer / BOTH in-flight attempts succeed in one loop "
+           "iteration, in either order -> late arrivals)",
            "after the schedule every still-running attempt is failed and the clock is advanced (drain) so that "
            "'completes' is checked for all schedules in which every attempt eventually finishes"],
-    outside=["TCPClient.connect / _create_stream (resolver, real sockets, source_ip bind, TLS handshake)",
+    outside=["quick tier only: the first address is AF_INET6 (lists that differ only by swapping the two family "
+             "labels are mirror images); the thorough tier runs both labellings",
+             "TCPClient.connect / _create_stream (resolver, real sockets, source_ip bind, TLS handshake)",
              "more than N addresses / S schedule steps", "more than two address families",
              "attempts that never finish AND no connect_timeout (then nothing completes by design)"],
 )
-def h_connector(addrs: List[Tuple[bool, bool]], he: int, ct: int, steps: List[Tuple[int, int, bool]]):
+def h_connector(addrs: List[Tuple[bool, bool]], ct: int, steps: List[Tuple[int, int]]):
     with install() as env:
+        he = HE
         rig = _Rig(env, addrs, he, ct)
         t0 = rig.t0
         ret = rig.conn.start(timeout=he, connect_timeout=(None if ct == 0 else t0 + ct))
         assert ret is rig.fut
         env.run_ready()
         rig.check()
-        for k, a, d in steps:
+        for k, a in steps:
             if k == 2:
-                env.advance(1 if a == 0 else 2)
+                # the clock jumps to the next pending timer deadline (time is observable only through timers)
+                pend = env.v.pending_timers()
+                if not pend:
+                    return             # covered by the shorter schedule
+                nxt = pend[0].when
+                for h in pend:
+                    if h.when < nxt:
+                        nxt = h.when
+                env.advance(nxt - env.v.now)
             else:
                 fl = rig.inflight()
-                if not fl:
+                if not fl or (k == 3 and len(fl) < 2):
                     return             # nothing to complete: covered by the shorter schedule
                 # `a` is only inspected when two attempts are in flight (keeps the path count down)
-                att = fl[0] if (len(fl) == 1 or a == 0) else fl[1]
+                if len(fl) == 1 or a == 0:
+                    att, other = fl[0], fl[-1]
+                else:
+                    att, other = fl[1], fl[0]
                 if k == 0:
                     rig.succeed(att)
-                else:
+                elif k == 1:
                     rig.fail(att)
-                if d:
-                    continue           # next step happens in the same loop iteration
+                else:
+                    # both in-flight attempts SUCCEED within one loop iteration (callbacks run back to
+                    # back, in either order): this is how late arrivals happen.  (The other same-iteration
+                    # pairs are event-for-event identical to two consecutive single steps: a failure
+                    # callback after the winner does nothing, one before it behaves as when run alone.)
+                    rig.succeed(att)
+                    rig.succeed(other)
                 env.run_ready()
             rig.check()
-        env.run_ready()
-        rig.check()
         # ---- drain: everything still running fails, all timers fire -> the connect must be complete
         for _ in range(len(addrs) + 1):
             fl = rig.inflight()
@@ -252,7 +278,7 @@ def h_connector(addrs: List[Tuple[bool, bool]], he: int, ct: int, steps: List[Tu
                 break
             for att in fl:
                 rig.fail(att)
-            env.advance(3)
+            env.advance(4)
         rig.check()
         assert rig.fut.done(), "connect never completed although every attempt finished"
         assert not rig.inflight()
